@@ -32,6 +32,15 @@ def id_rewrite(t: Term) -> Term | None:
             return g
     if h == "meth" and t[2] == "pop" and not t[3] and t[1][0] == "meth" and t[1][2] == "districts":
         return ("the", t[1])
+    if h == "index" and t[2] == const(0):
+        src = t[1]
+        while src[0] == "call" and src[1] in ("list", "tuple", "sorted") and len(src[2]) == 1:
+            src = src[2][0]
+        if src[0] == "setof":
+            src = src[1]
+        if src[0] == "meth" and src[2] == "districts":
+            # `(d,) = districts` / `list(districts)[0]`: the single district
+            return ("the", src)
     if h == "call" and t[1] == "next" and t[2] and t[2][0][0] == "call" and t[2][0][1] == "iter" and t[2][0][2] and t[2][0][2][0][0] == "meth" and t[2][0][2][0][2] == "districts":
         return ("the", t[2][0][2][0])
     if h == "slice" and t[2] == NONE and t[3][0] == "meth" and t[3][2] == "index" and len(t[3][3]) == 1:
@@ -46,6 +55,18 @@ def id_rewrite(t: Term) -> Term | None:
         # Σ_{after v} E / Σ_{v and after} E  over one order π: the conditional of E for v given its predecessors
         def zone(r):
             r = r[1] if r[0] == "setof" else r
+            if r[0] in ("listlit", "tuplelit") and len(r[1]) == 2 and r[1][1][0] == "star":
+                # [v, *π[i+1:]]  =  π[i:]  (v itself followed by its successors)
+                v0, rest = r[1][0], r[1][1][1]
+                z = zone(rest)
+                if z and z[0] == "GT" and z[2] == v0:
+                    return ("EQ,GT", z[1], z[2])
+                return None
+            if r[0] in ("concat",) and r[1][0] in ("listlit", "tuplelit") and len(r[1][1]) == 1:
+                z = zone(r[2])
+                if z and z[0] == "GT" and z[2] == r[1][1][0]:
+                    return ("EQ,GT", z[1], z[2])
+                return None
             if r[0] == "slice" and r[3] == NONE:
                 lo = r[2]
                 if lo[0] == "meth" and lo[2] == "index" and _unlist(lo[1]) == _unlist(r[1]) and len(lo[3]) == 1:
@@ -74,7 +95,13 @@ def id_rewrite(t: Term) -> Term | None:
             return ("SUM", kw.get("expression"), ("setof", kw.get("ranges")))
     if h == "call" and str(t[1]).endswith("Product.safe"):
         kw = dict(t[3])
-        return ("PROD", kw.get("expressions", t[2][0] if t[2] else None))
+        ex = kw.get("expressions", t[2][0] if t[2] else None)
+        # the factors of a product are a multiset: list / tuple / generator spellings are the same
+        while ex is not None and ex[0] == "call" and ex[1] in ("list", "tuple", "iter") and len(ex[2]) == 1:
+            ex = ex[2][0]
+        if ex is not None and ex[0] == "comp" and ex[1] in ("list", "set"):
+            ex = ("comp", "gen") + tuple(ex[2:])
+        return ("PROD", ex)
     # len(districts(H)) tests  ->  the single atom CONNECTED(H)   (axiom A1: H non-empty)
     if h in ("le", "lt", "eq", "ne"):
         a, b = t[1], t[2]
@@ -112,8 +139,43 @@ def evaluate_identify(model: Model):
     ev = Evaluator(model, primitives=set(ID_PRIMS) | {"y0.dsl.P"}, prim_methods=set(ID_PRIM_METHODS))
     ident = typed(ev, "identification", ("cls", IDENT))
     f = model.func(IDENTIFY)
-    paths = ev.run(f, {"identification": ident})
+    paths = [witness_normalise(p) for p in ev.run(f, {"identification": ident})]
     return f, ev, ident, paths
+
+
+def witness_normalise(p: Path) -> Path:
+    """`L = [d for d in D if c(d)]; if not L: <fail>; d = L[0]; ...`  is the search loop  `for d in D: if c(d): ...`:
+    a guard `nonempty(L)` together with uses of L[0] becomes a witness `d ∈ D, c(d)`; a guard `not L` becomes `no d ∈ D has c(d)`."""
+    from dataclasses import replace as _replace
+    from ..terms import subst as _subst
+    conds = list(p.conds)
+    value = p.value
+    changed = False
+    for i, c in enumerate(list(conds)):
+        neg = c[0] == "not"
+        core = c[1] if neg else c
+        if core[0] != "truth":
+            continue
+        L = core[1]
+        src = L
+        while src[0] == "call" and src[1] in ("list", "tuple") and len(src[2]) == 1:
+            src = src[2][0]
+        if not (src[0] == "comp" and src[1] in ("list", "gen") and len(src[3]) == 1 and src[2] == src[3][0][0] and src[3][0][0][0] == "var"):
+            continue
+        pat, it, cs = src[3][0]
+        if neg:
+            conds[i] = ("forall-not", pat, it, tuple(cs))
+            changed = True
+        else:
+            first = ("index", L, const(0))
+            if any(s_ == first for s_ in subterms((value, tuple(conds)))):
+                m = {first: pat}
+                conds[i] = ("iter-elem", pat, it)
+                conds[i + 1:i + 1] = list(cs)
+                conds = [_subst(x, m) for x in conds]
+                value = _subst(value, m)
+                changed = True
+    return _replace(p, conds=tuple(conds), value=value) if changed else p
 
 
 class Ref:
